@@ -3,6 +3,7 @@
 usage: verify_seed.py C05 m1    (uses the scratch worktree /tmp/seed/C05 and /tmp/seed/C05.out/m1)"""
 import sys, os, subprocess, json, re, shutil
 pid, m = sys.argv[1], sys.argv[2]
+store = sys.argv[3] if len(sys.argv) > 3 else m   # name under /verif/seeded (e.g. m1 of round 2 is stored as m3)
 wt = "/tmp/seed/%s" % pid
 src = "/tmp/seed/%s.out/%s" % (pid, m)
 env = dict(os.environ, GOFLAGS="-mod=mod", GOPROXY="off", GOSUMDB="off", GOTOOLCHAIN="local")
@@ -33,14 +34,14 @@ good &= step("apply", "git apply %s" % patch, True)
 good &= step("build", "go build ./...", True)
 good &= step("suite with change", "go test -vet=off -count=1 ./...", True)
 shutil.copy(os.path.join(src, demo), os.path.join(wt, pkgdir, "zz_demo_test.go"))
-good &= step("demo with change (must fail)", "go test -vet=off -count=1 -run 'TestDemo|TestC20' ./%s" % pkgdir, False)
+good &= step("demo with change (must fail)", "go test -vet=off -count=1 -run 'TestDemo|TestC[0-9][0-9]|TestSeed' ./%s" % pkgdir, False)
 sh("git apply -R %s" % patch)
-good &= step("demo without change (must pass)", "go test -vet=off -count=1 -run 'TestDemo|TestC20' ./%s" % pkgdir, True)
+good &= step("demo without change (must pass)", "go test -vet=off -count=1 -run 'TestDemo|TestC[0-9][0-9]|TestSeed' ./%s" % pkgdir, True)
 os.remove(os.path.join(wt, pkgdir, "zz_demo_test.go"))
 sh("git checkout -q -- . && git clean -fdq")
 print("VERIFIED" if good else "REJECTED", pid, m)
 if good:
-    dst = "/verif/seeded/%s-%s" % (pid, m)
+    dst = "/verif/seeded/%s-%s" % (pid, store)
     os.makedirs(dst, exist_ok=True)
     shutil.copy(patch, os.path.join(dst, "patch.diff"))
     shutil.copy(os.path.join(src, demo), os.path.join(dst, "demo_test.go"))
